@@ -13,8 +13,8 @@ func init() {
 }
 
 func verifC06Convert() {
-	g := &cvGen{special: 1, marks: 1, tmut: 2, width: 1 + vTier(), dynSrc: true, shortStr: true}
-	src := g.typ("t", 1+vTier())
+	g := &cvGen{special: vTier(), marks: vTier(), tmut: 2, width: 1 + vTier(), dynSrc: vTier() > 0, shortStr: true}
+	src := g.typ("t", 2)
 	want := g.target("w", src)
 	g.concStr = cvHasKind(want, cty.Number)
 	p := g.value("v", src)
